@@ -61,6 +61,11 @@ pub const TEXTS: &[S] = &[
     "tab\there",
     "`code` and *stars* and <angle> & amp",
     "q&a b&w black&white &amp; &#8617; &x &# AT&T a&",
+    "styled \u{1}literal\u{1} emphasis \u{1}META\u{1}bad",
+    "é\nsecond line\u{1}x",
+    "first\n\nsecond\u{1}世\u{1}\n\u{1}tail",
+    "\u{1}\u{1}",
+
     "tail& &head mid&dle &;",
 
     "\nstarts with an empty line",
